@@ -43,6 +43,7 @@ fn drop_file(c: &Case, ix: usize) -> Case {
     let mut n = c.clone();
     let path = n.files[ix].path.clone();
     n.files.remove(ix);
+    n.path_args.retain(|a| *a != path);
     n.faults.retain(|f| f.target != path);
     n.chunking.retain(|f| f.target != path);
     // shrink the group that contained the file
@@ -208,6 +209,14 @@ pub fn minimize(case: &Case, finding: &Finding, budget: usize) -> (Case, Finding
         if !m.attempt(c) {
             i += 1;
         }
+    }
+
+    // 4b. name the files explicitly instead of through path discovery
+    if m.best.path_form != PathForm::Explicit {
+        let mut c = m.best.clone();
+        c.path_form = PathForm::Explicit;
+        c.path_args.clear();
+        m.attempt(c);
     }
 
     // 5. options, knobs, extra arguments back to defaults
